@@ -6,9 +6,9 @@
 EXTENDS Node, Json
 
 CoreRec  == [isRoot |-> isRoot, mode |-> mode, src |-> src, cached |-> cached, ents |-> ents, mem |-> mem,
-             fetched |-> fetched, reported |-> reported]
+             fetched |-> fetched, reported |-> reported, sfheld |-> sfheld]
 CoreRecP == [isRoot |-> isRoot', mode |-> mode', src |-> src', cached |-> cached', ents |-> ents', mem |-> mem',
-             fetched |-> fetched', reported |-> reported']
+             fetched |-> fetched', reported |-> reported', sfheld |-> sfheld']
 
 \* the opaque mode only matters to the xattr calls, which change nothing: directories with the opaque marker
 \* are generated in every mode, the others in one mode each (all three modes occur)
